@@ -38,6 +38,7 @@ func ruleC12(w *World, r *Report) {
 		"R12.5 recoveryTS.local has a single writer (the constructor) and every NewRecoveryTimeStamp argument is pConn.ts.local; the heartbeat handler answers on every path past the type assertion and signals hbReset under enableHBTimer, and the monitor's hbReset case resets the ticker; " +
 		"R12.6 handleAssociationSetupRequest: cause accepted ⇔ upf.isConnected() edge, association state (remote node id / recovery time stamp) stored only on the connected branch; associationIEs: feature helpers called under exactly their configuration flags, each helper sets its (octet, bit) per TS 29.244 §8.2.25 with an adequate length guard, and the feature slice is long enough for every helper."
 	r.Explanation += " R12.1 accepts the retry loop in both spellings (counter counting down from, or attempts counting up to, maxReqRetries) and proves ≤ 1+N transmissions for either; a narrow attempt counter must not be able to wrap (WRAP); R12.8 the reader hands a time-out to Serve only for an expired read deadline."
+	r.Explanation += " R12.9 each datagram is handled from a slice allocated after it was read; R12.10 setConnectedStatus(true) only behind initialize() == nil."
 	r.NotDecided = "real-time spacing of retransmissions, loss patterns, scheduling"
 	sendReq := w.Fn(P, "pfcpiface.(*PFCPConn).sendPFCPRequestMessage")
 	send := w.Fn(P, "pfcpiface.(*PFCPConn).SendPFCPMsg")
